@@ -1,22 +1,476 @@
-//! Data pipes between parent and the scripted child, and poll().
+//! Data pipes between the parent (communicate loop) and an arbitrary child,
+//! and poll().  Linux pipe semantics:
+//!   read end : POLLIN iff buffered > 0; POLLHUP iff no writer left
+//!   write end: POLLOUT iff free >= PIPE_BUF (and a reader exists); POLLERR iff no reader left
+//!   write(n <= PIPE_BUF) is atomic: it blocks while free < n
+//!   read returns 1..=min(n, buffered) bytes (short reads allowed), 0 at EOF, blocks when empty with a writer
+//! The child is `child_step()`: at every parent system call it may read any
+//! part of what is buffered on its stdin, write any amount that fits to its
+//! stdout/stderr, and close any of its ends -- in any combination.
+//!
+//! Stream content: the byte at absolute position p of stream s is
+//! g(s, p) = TAG[s] ^ (p as u8 * 37); TAG is symbolic per stream.
+
 use super::*;
 use libc::{c_int, ssize_t};
 
-pub unsafe fn on_close(_o: Obj) {}
+pub const IN: usize = 0;
+pub const OUT: usize = 1;
+pub const ERR: usize = 2;
+pub const PIPE_BUF: usize = 4096;
 
-pub unsafe fn pipe_read(_p: u8, _buf: *mut u8, _n: usize) -> ssize_t {
-    vmodel!(false, "MODEL/pipe_read: data pipes not enabled in this harness");
-    0
+#[derive(Clone, Copy)]
+pub struct Stream {
+    /// is this stream piped at all
+    pub used: bool,
+    /// pipe id (for FDT objects)
+    pub pipe: u8,
+    pub buffered: usize,
+    pub cap: usize,
+    /// the child still holds its end
+    pub peer_open: bool,
+    /// the parent still holds its end (updated by close())
+    pub parent_open: bool,
+    /// totals since the pipe was created
+    pub total_in: usize,  // bytes put into the pipe
+    pub total_out: usize, // bytes taken out of the pipe
+    pub tag: u8,
 }
 
-pub unsafe fn pipe_write(_p: u8, _buf: *const u8, n: usize) -> ssize_t {
-    vmodel!(false, "MODEL/pipe_write: data pipes not enabled in this harness");
-    n as ssize_t
+pub const NOSTREAM: Stream = Stream {
+    used: false,
+    pipe: 0,
+    buffered: 0,
+    cap: 0,
+    peer_open: false,
+    parent_open: false,
+    total_in: 0,
+    total_out: 0,
+    tag: 0,
+};
+
+pub static mut ENABLED: bool = false;
+pub static mut S: [Stream; 3] = [NOSTREAM; 3];
+/// max bytes per transfer (parent read/write results and child actions)
+pub static mut XFER_MAX: usize = 3;
+/// parent system calls (poll/read/write) so far and the budget after which the trace is cut
+pub static mut STEPS: u32 = 0;
+pub static mut STEP_BUDGET: u32 = 0;
+/// harness's own copy of the input (for C02 checks at write)
+pub const INMAX: usize = 8;
+pub static mut INPUT: [u8; INMAX] = [0; INMAX];
+pub static mut INPUT_LEN: usize = 0;
+/// how many streams the communicator holds right now (parent ends open)
+pub unsafe fn parent_streams_open() -> usize {
+    (S[IN].used && S[IN].parent_open) as usize + (S[OUT].used && S[OUT].parent_open) as usize + (S[ERR].used && S[ERR].parent_open) as usize
+}
+
+pub fn g(tag: u8, pos: usize) -> u8 {
+    tag ^ (pos as u8).wrapping_mul(37)
+}
+
+// ---- progress tracking (C01: no spinning)
+pub static mut POLLS: u32 = 0;
+pub static mut LAST_POLL_MOVED: usize = 0; // total bytes moved at the previous poll
+pub static mut LAST_POLL_NFDS: usize = 0; // number of fds polled at the previous poll
+pub static mut LAST_POLL_TIMED_OUT: bool = false;
+pub static mut BLOCKING_READS: u32 = 0;
+/// time model hooks for C04
+pub static mut POLL_TIMEOUTS_SEEN: u32 = 0;
+pub static mut LAST_POLL_TIMEOUT_MS: c_int = 0;
+pub static mut POLL_RETURNED_ZERO: u32 = 0;
+/// number of I/O system calls (read/write) issued while the clock was already past the deadline
+pub static mut IO_AFTER_DEADLINE: u32 = 0;
+pub static mut DEADLINE_SET: bool = false;
+pub static mut DEADLINE_S: i64 = 0;
+pub static mut DEADLINE_NS: i64 = 0;
+/// child behaviour switches
+pub static mut CHILD_MAY_ACT: bool = true;
+
+pub unsafe fn moved() -> usize {
+    S[IN].total_in + S[OUT].total_out + S[ERR].total_out
+}
+
+pub unsafe fn reset() {
+    ENABLED = false;
+    S = [NOSTREAM; 3];
+    XFER_MAX = 3;
+    STEPS = 0;
+    STEP_BUDGET = 0;
+    INPUT_LEN = 0;
+    POLLS = 0;
+    LAST_POLL_MOVED = 0;
+    LAST_POLL_NFDS = 0;
+    LAST_POLL_TIMED_OUT = false;
+    BLOCKING_READS = 0;
+    POLL_TIMEOUTS_SEEN = 0;
+    POLL_RETURNED_ZERO = 0;
+    IO_AFTER_DEADLINE = 0;
+    DEADLINE_SET = false;
+    CHILD_MAY_ACT = true;
+    LIMIT_SET = false;
+    CLOSE_BY_DROP = false;
+    IN_BASE = 0;
+}
+
+/// Create the pipe of stream `s` seen from the parent: returns the parent's fd.
+pub unsafe fn open_stream(s: usize, fd: usize, pipe: u8) {
+    let cap: usize = kani::any();
+    kani::assume(cap >= PIPE_BUF && cap <= (1 << 20));
+    let buffered: usize = kani::any();
+    kani::assume(buffered <= cap);
+    let total_out: usize = kani::any();
+    kani::assume(total_out <= (1 << 40));
+    S[s] = Stream {
+        used: true,
+        pipe,
+        buffered,
+        cap,
+        peer_open: kani::any(),
+        parent_open: true,
+        total_in: total_out + buffered,
+        total_out,
+        tag: kani::any(),
+    };
+    FDT[fd] = FdEnt {
+        obj: if s == IN { Obj::PipeW(pipe) } else { Obj::PipeR(pipe) },
+        cloexec: true,
+    };
+}
+
+pub unsafe fn stream_of_pipe(p: u8) -> Option<usize> {
+    if S[IN].used && S[IN].pipe == p {
+        Some(IN)
+    } else if S[OUT].used && S[OUT].pipe == p {
+        Some(OUT)
+    } else if S[ERR].used && S[ERR].pipe == p {
+        Some(ERR)
+    } else {
+        None
+    }
+}
+
+/// The child does anything it can, at a parent system-call boundary.
+pub unsafe fn child_step() {
+    if !CHILD_MAY_ACT {
+        return;
+    }
+    // stdin: read part of what is buffered, maybe close
+    if S[IN].used && S[IN].peer_open {
+        let k: usize = kani::any();
+        kani::assume(k <= S[IN].buffered && k <= XFER_MAX);
+        S[IN].buffered -= k;
+        S[IN].total_out += k;
+        if kani::any() {
+            S[IN].peer_open = false;
+        }
+    }
+    let mut s = OUT;
+    while s <= ERR {
+        if S[s].used && S[s].peer_open {
+            let k: usize = kani::any();
+            kani::assume(k <= S[s].cap - S[s].buffered && k <= XFER_MAX);
+            S[s].buffered += k;
+            S[s].total_in += k;
+            if kani::any() {
+                S[s].peer_open = false;
+            }
+        }
+        s += 1;
+    }
+}
+
+unsafe fn count_step() {
+    STEPS += 1;
+    if STEP_BUDGET != 0 && STEPS > STEP_BUDGET {
+        // bounded trace: everything after the budget is outside the claim
+        kani::assume(false);
+    }
+}
+
+unsafe fn past_deadline() -> bool {
+    DEADLINE_SET && time::now_ge(DEADLINE_S, DEADLINE_NS)
+}
+
+pub unsafe fn on_close(o: Obj) {
+    if !ENABLED {
+        return;
+    }
+    let p = match o {
+        Obj::PipeR(p) | Obj::PipeW(p) => p,
+        _ => return,
+    };
+    if let Some(s) = stream_of_pipe(p) {
+        S[s].parent_open = false;
+        if s == IN {
+            // C02: stdin is closed exactly when the whole input has been accepted
+            vcheck!(C02, S[IN].total_in - IN_BASE == INPUT_LEN || CLOSE_BY_DROP, "C02/eof-after-last-byte: the child's stdin was closed before the whole input had been written");
+        }
+    }
+}
+
+/// total_in of stdin when the exchange started
+pub static mut IN_BASE: usize = 0;
+/// set by the harness while it drops the communicator itself
+pub static mut CLOSE_BY_DROP: bool = false;
+
+pub unsafe fn pipe_read(p: u8, buf: *mut u8, n: usize) -> ssize_t {
+    vmodel!(ENABLED, "MODEL/pipe_read: data pipes not enabled in this harness");
+    let s = match stream_of_pipe(p) {
+        Some(s) => s,
+        None => {
+            vmodel!(false, "MODEL/pipe_read: unknown pipe");
+            return 0;
+        }
+    };
+    count_step();
+    child_step();
+    if past_deadline() {
+        IO_AFTER_DEADLINE += 1;
+    }
+    if LIMIT_SET {
+        let taken = (S[OUT].total_out - OUT_BASE) + (S[ERR].total_out - ERR_BASE);
+        vcheck!(C03, taken <= LIMIT && n <= LIMIT - taken, "C03/never-consume-beyond-limit: a read asks the kernel for more bytes than the size limit still allows (the excess could not be returned by this call)");
+    }
+    if n == 0 {
+        return 0;
+    }
+    if S[s].buffered == 0 {
+        if !S[s].peer_open {
+            return 0; // EOF
+        }
+        // a blocking read: legitimate only when the child cannot be waiting for the parent on another pipe
+        BLOCKING_READS += 1;
+        vcheck!(C01, parent_streams_open() == 1, "C01/no-blocking-read-with-other-streams: a read blocks on an empty pipe while the parent holds other pipes the child may be blocked on");
+        // the child eventually writes or closes
+        let k: usize = kani::any();
+        kani::assume(k <= XFER_MAX && k <= S[s].cap);
+        if k == 0 {
+            S[s].peer_open = false;
+            return 0;
+        }
+        S[s].buffered += k;
+        S[s].total_in += k;
+    }
+    let k: usize = kani::any();
+    kani::assume(k >= 1 && k <= n && k <= S[s].buffered && k <= XFER_MAX);
+    let mut i = 0;
+    while i < XFER_LOOP {
+        if i < k {
+            *buf.add(i) = g(S[s].tag, S[s].total_out + i);
+        }
+        i += 1;
+    }
+    S[s].buffered -= k;
+    S[s].total_out += k;
+    k as ssize_t
+}
+
+/// loop bound for byte copies (>= XFER_MAX)
+pub const XFER_LOOP: usize = 4;
+/// size limit of the current read() call and the stream offsets at its start
+pub static mut LIMIT_SET: bool = false;
+pub static mut LIMIT: usize = 0;
+pub static mut OUT_BASE: usize = 0;
+pub static mut ERR_BASE: usize = 0;
+
+pub unsafe fn pipe_write(p: u8, buf: *const u8, n: usize) -> ssize_t {
+    vmodel!(ENABLED, "MODEL/pipe_write: data pipes not enabled in this harness");
+    let s = match stream_of_pipe(p) {
+        Some(s) => s,
+        None => {
+            vmodel!(false, "MODEL/pipe_write: unknown pipe");
+            return n as ssize_t;
+        }
+    };
+    vmodel!(s == IN, "MODEL/pipe_write: parent writes to an output pipe");
+    count_step();
+    child_step();
+    if past_deadline() {
+        IO_AFTER_DEADLINE += 1;
+    }
+    if !S[IN].peer_open {
+        // reader gone: EPIPE (SIGPIPE is ignored in a Rust parent)
+        return fail(libc::EPIPE) as ssize_t;
+    }
+    vcheck!(C01, n <= PIPE_BUF, "C01/write-chunk-at-most-pipe-buf: a write chunk larger than PIPE_BUF can block although poll reported the pipe writable");
+    let free = S[IN].cap - S[IN].buffered;
+    if n <= PIPE_BUF {
+        vcheck!(C01, free >= n || parent_streams_open() == 1, "C01/write-never-blocks: a write was issued that blocks (pipe lacks room) while the child may be blocked on an output pipe the parent is not reading");
+        if free < n {
+            // blocks until the child reads: the child eventually does
+            let r: usize = kani::any();
+            kani::assume(r >= n - free && r <= S[IN].buffered);
+            S[IN].buffered -= r;
+            S[IN].total_out += r;
+        }
+    }
+    if n == 0 {
+        return 0;
+    }
+    // how much is accepted: everything (atomic) for n <= PIPE_BUF; short writes are
+    // still allowed by POSIX for interrupted calls -- allow any k in 1..=n that fits
+    let k: usize = kani::any();
+    kani::assume(k >= 1 && k <= n && k <= S[IN].cap - S[IN].buffered);
+    kani::assume(k <= XFER_MAX || k == n);
+    // C02: the bytes handed over are the next input bytes, once, in order
+    let base = S[IN].total_in - IN_BASE;
+    let mut i = 0;
+    while i < XFER_LOOP {
+        if i < k && i < n {
+            let want_ok = base + i < INPUT_LEN && *buf.add(i) == INPUT[(base + i) % INMAX];
+            vcheck!(C02, want_ok, "C02/input-once-in-order: a byte written to the child's stdin is not the next byte of the supplied input");
+        }
+        i += 1;
+    }
+    S[IN].buffered += k;
+    S[IN].total_in += k;
+    k as ssize_t
 }
 
 #[no_mangle]
-pub unsafe extern "C" fn poll(_fds: *mut libc::pollfd, _n: libc::nfds_t, _timeout: c_int) -> c_int {
+pub unsafe extern "C" fn poll(fds: *mut libc::pollfd, nfds: libc::nfds_t, timeout: c_int) -> c_int {
     on_syscall();
-    vmodel!(false, "MODEL/poll: not enabled in this harness");
-    0
+    vmodel!(ENABLED, "MODEL/poll: not enabled in this harness");
+    count_step();
+    child_step();
+    POLLS += 1;
+    LAST_POLL_TIMEOUT_MS = timeout;
+    // ---- C01 progress: since the previous poll, bytes moved or a stream was retired,
+    // unless the previous poll timed out
+    let mut polled = 0;
+    let mut i = 0;
+    while i < 3 {
+        if (i as libc::nfds_t) < nfds && (*fds.add(i)).fd >= 0 {
+            polled += 1;
+        }
+        i += 1;
+    }
+    if POLLS > 1 && !LAST_POLL_TIMED_OUT {
+        vcheck!(C01, moved() != LAST_POLL_MOVED || polled < LAST_POLL_NFDS, "C01/progress-between-polls: two consecutive polls with no byte moved and no stream retired in between (the loop spins, e.g. on a stream at end-of-file)");
+    }
+    vcheck!(C01, polled > 0, "C01/poll-something: poll() called with no stream to wait for (would block forever)");
+    LAST_POLL_MOVED = moved();
+    LAST_POLL_NFDS = polled;
+    // C04: with a time limit, poll is never asked to wait past the deadline (+1 ms rounding)
+    if DEADLINE_SET {
+        vcheck!(C04, timeout >= 0, "C04/poll-bounded-by-deadline: poll() called without timeout although a time limit is set");
+        if timeout > 0 {
+            // now + (timeout - 1) ms < deadline  <=>  waiting `timeout` ms ends before deadline + 1 ms
+            let ms = (timeout - 1) as i64;
+            let s: i64 = kani::any();
+            let rem: i64 = kani::any();
+            kani::assume(s >= 0 && rem >= 0 && rem < 1000 && s <= 2_147_484 && s * 1000 + rem == ms);
+            let mut es = time::NOW_S + s;
+            let mut en = time::NOW_NS + rem * 1_000_000;
+            if en >= 1_000_000_000 {
+                en -= 1_000_000_000;
+                es += 1;
+            }
+            let before = es < DEADLINE_S || (es == DEADLINE_S && en < DEADLINE_NS);
+            vcheck!(C04, before, "C04/poll-bounded-by-deadline: poll() is asked to wait more than 1 ms past the deadline");
+        }
+    } else {
+        vcheck!(C04, timeout == -1, "C04/no-timeout-without-limit: poll() called with a timeout although no time limit was set");
+    }
+    let mut ready = 0;
+    let mut pass = 0;
+    while pass < 2 {
+        ready = 0;
+        let mut i = 0;
+        while i < 3 {
+            if (i as libc::nfds_t) < nfds {
+                let pf = &mut *fds.add(i);
+                pf.revents = 0;
+                if pf.fd >= 0 && valid_fd(pf.fd) {
+                    let (s, is_w) = match FDT[pf.fd as usize].obj {
+                        Obj::PipeW(p) => (stream_of_pipe(p), true),
+                        Obj::PipeR(p) => (stream_of_pipe(p), false),
+                        _ => (None, false),
+                    };
+                    if let Some(s) = s {
+                        let mut re: i16 = 0;
+                        if is_w {
+                            if !S[s].peer_open {
+                                re |= libc::POLLERR;
+                            } else if S[s].cap - S[s].buffered >= PIPE_BUF && (pf.events & libc::POLLOUT) != 0 {
+                                re |= libc::POLLOUT;
+                            }
+                        } else {
+                            if S[s].buffered > 0 && (pf.events & libc::POLLIN) != 0 {
+                                re |= libc::POLLIN;
+                            }
+                            if !S[s].peer_open {
+                                re |= libc::POLLHUP;
+                            }
+                        }
+                        pf.revents = re;
+                        if re != 0 {
+                            ready += 1;
+                        }
+                    } else {
+                        vmodel!(false, "MODEL/poll: descriptor that is not a stream pipe");
+                    }
+                }
+            }
+            i += 1;
+        }
+        if ready > 0 || pass == 1 {
+            break;
+        }
+        // nothing ready: the call blocks
+        if timeout == 0 {
+            break;
+        }
+        if timeout > 0 {
+            // either the child makes something ready before the timeout, or the timeout expires
+            // elapsed time as (s, rem ms) with s*1000 + rem = ms: no division of symbolic values
+            let ms: i64 = kani::any();
+            let s: i64 = kani::any();
+            let rem: i64 = kani::any();
+            kani::assume(s >= 0 && rem >= 0 && rem < 1000 && s <= 2_147_484 && s * 1000 + rem == ms);
+            if kani::any() {
+                // the timeout expires: exactly timeout ms pass (the model clock does not oversleep)
+                kani::assume(ms == timeout as i64);
+                time::advance(s, rem * 1_000_000);
+                break;
+            }
+            kani::assume(ms <= timeout as i64);
+            time::advance(s, rem * 1_000_000);
+        }
+        // the child does something that makes a stream ready
+        force_child_progress();
+        pass += 1;
+    }
+    LAST_POLL_TIMED_OUT = ready == 0;
+    if ready == 0 {
+        POLL_RETURNED_ZERO += 1;
+    }
+    ready
+}
+
+/// Blocked in poll with nothing ready: the child eventually makes one polled stream ready.
+pub unsafe fn force_child_progress() {
+    let which: u8 = kani::any();
+    kani::assume(which < 3);
+    let s = which as usize;
+    kani::assume(S[s].used && S[s].parent_open && S[s].peer_open);
+    if s == IN {
+        // drain enough for POLLOUT, or close
+        if kani::any() {
+            S[IN].peer_open = false;
+        } else {
+            let k: usize = kani::any();
+            kani::assume(k <= S[IN].buffered && S[IN].cap - (S[IN].buffered - k) >= PIPE_BUF);
+            S[IN].buffered -= k;
+            S[IN].total_out += k;
+        }
+    } else if kani::any() {
+        S[s].peer_open = false;
+    } else {
+        let k: usize = kani::any();
+        kani::assume(k >= 1 && k <= XFER_MAX && k <= S[s].cap - S[s].buffered);
+        S[s].buffered += k;
+        S[s].total_in += k;
+    }
 }
